@@ -334,39 +334,69 @@ func constructorField(v ssa.Value, path ...string) (val ssa.Value, inCallee bool
 // kind (mapdelete / mapupdate) to a map field of its receiver under a key that is one of its parameters
 // (a "retire this id" / "record this id" helper). Returns the field, the kind and the parameter positions.
 func (p *Prog) deltaHelper(g *ssa.Function) (fr fieldRef, kind string, keyIdx, valIdx int, ok bool) {
-	if g == nil || g.Pkg != p.RootSSA || len(g.Blocks) == 0 || g.Object() == nil || g.Object().Exported() || recvName(g) != storageT {
+	ws := p.deltaHelperWrites(g)
+	if len(ws) != 1 {
 		return
 	}
-	var the *fieldWrite
-	n := 0
+	return ws[0].ref, ws[0].kind, ws[0].keyIdx, ws[0].valIdx, true
+}
+
+// helperWrite: one of the map writes a retire / record helper performs on its receiver.
+type helperWrite struct {
+	ref            fieldRef
+	kind           string
+	keyIdx, valIdx int
+	val            ssa.Value // the stored value when it is not a parameter (a constant, e.g. the nil tombstone)
+}
+
+// deltaHelperWrites: g is a private method of the storage whose map writes are all of the form "field[param] = x" /
+// "delete(field, param)" on its receiver, each performed on every success path (a helper that retires an id from
+// the write set and files it in the cache performs two). Returns them in instruction order; nil if g is no such helper.
+func (p *Prog) deltaHelperWrites(g *ssa.Function) []helperWrite {
+	if g == nil || g.Pkg != p.RootSSA || len(g.Blocks) == 0 || g.Object() == nil || g.Object().Exported() || recvName(g) != storageT {
+		return nil
+	}
+	var out []helperWrite
+	bad := false
 	eachInstr(g, func(in ssa.Instruction) {
+		// a helper that writes the register itself is a register-write wrapper: its map writes are judged inside it
+		if _, _, isBW := p.baseWrite(in); isBW {
+			bad = true
+			return
+		}
 		fw, isW := fieldWriteOf(in)
 		if !isW || (fw.Kind != "mapdelete" && fw.Kind != "mapupdate") || !sameValue(fw.Ref.Base, g.Params[0]) {
 			return
 		}
-		n++
-		w := fw
-		the = &w
+		w := helperWrite{ref: fw.Ref, kind: fw.Kind, keyIdx: -1, valIdx: -1}
+		for i, q := range g.Params {
+			if canon(fw.Key) == ssa.Value(q) {
+				w.keyIdx = i
+			}
+			if fw.Val != nil && canon(stripIface(fw.Val)) == ssa.Value(q) {
+				w.valIdx = i
+			}
+		}
+		if w.keyIdx < 0 {
+			bad = true
+			return
+		}
+		if fw.Val != nil && w.valIdx < 0 {
+			if _, isConst := canon(stripIface(fw.Val)).(*ssa.Const); isConst {
+				w.val = fw.Val
+			}
+		}
+		the := fw.Instr
+		if successReturnAvoiding(g, nil, func(z ssa.Instruction) bool { return z == the }) != nil {
+			bad = true
+			return
+		}
+		out = append(out, w)
 	})
-	if n != 1 {
-		return
+	if bad || len(out) > 3 {
+		return nil
 	}
-	keyIdx, valIdx = -1, -1
-	for i, q := range g.Params {
-		if canon(the.Key) == ssa.Value(q) {
-			keyIdx = i
-		}
-		if the.Val != nil && canon(stripIface(the.Val)) == ssa.Value(q) {
-			valIdx = i
-		}
-	}
-	if keyIdx < 0 {
-		return
-	}
-	if successReturnAvoiding(g, nil, func(z ssa.Instruction) bool { return z == the.Instr }) != nil {
-		return
-	}
-	return the.Ref, the.Kind, keyIdx, valIdx, true
+	return out
 }
 
 func stripIface(v ssa.Value) ssa.Value {
@@ -376,24 +406,39 @@ func stripIface(v ssa.Value) ssa.Value {
 	return v
 }
 
-// fieldWriteOfX is fieldWriteOf that also sees a call of a deltaHelper as the write it performs.
+// fieldWriteOfX is fieldWriteOf that also sees a call of a deltaHelper as the write it performs (the first one, for
+// helpers that perform several: see fieldWritesOfX).
 func (p *Prog) fieldWriteOfX(in ssa.Instruction) (fieldWrite, bool) {
+	ws := p.fieldWritesOfX(in)
+	if len(ws) == 0 {
+		return fieldWrite{}, false
+	}
+	return ws[0], true
+}
+
+// fieldWritesOfX: the map writes instruction `in` performs - its own, or those of the retire / record helper it calls,
+// expressed with the caller's arguments.
+func (p *Prog) fieldWritesOfX(in ssa.Instruction) []fieldWrite {
 	if fw, ok := fieldWriteOf(in); ok {
-		return fw, true
+		return []fieldWrite{fw}
 	}
 	c, ok := in.(*ssa.Call)
 	if !ok {
-		return fieldWrite{}, false
+		return nil
 	}
 	g := c.Call.StaticCallee()
-	fr, kind, ki, vi, ok := p.deltaHelper(g)
-	if !ok || ki >= len(c.Call.Args) {
-		return fieldWrite{}, false
+	var out []fieldWrite
+	for _, w := range p.deltaHelperWrites(g) {
+		if w.keyIdx >= len(c.Call.Args) {
+			return nil
+		}
+		fr := w.ref
+		fr.Base = c.Call.Args[0]
+		val := w.val
+		if w.valIdx >= 0 && w.valIdx < len(c.Call.Args) {
+			val = c.Call.Args[w.valIdx]
+		}
+		out = append(out, fieldWrite{fr, w.kind, in, c.Call.Args[w.keyIdx], val})
 	}
-	fr.Base = c.Call.Args[0]
-	var val ssa.Value
-	if vi >= 0 && vi < len(c.Call.Args) {
-		val = c.Call.Args[vi]
-	}
-	return fieldWrite{fr, kind, in, c.Call.Args[ki], val}, true
+	return out
 }
